@@ -44,6 +44,9 @@ SHAPES = {
     "DEXT": [["a.bin"], ["z.bin"], ["@ext", "big.bin"], ["@ext", "extdir", "e.bin"]],
     # real files where clients store padding: .pad/<decimal>
     "DPAD": [[".pad", "12768"], [".pad", "x7"], ["a.bin"], ["b", "c.bin"]],
+    # payload entries named like keys of the metafile itself
+    "DKEY": [["announce"], ["comment", "x.txt"], ["info"], ["piece layers", "z"], ["pieces"], ["private"], ["source", "main.c"],
+             ["url-list"]],
     "DW": [["w%03d" % k] if k % 5 else ["grp%d" % (k // 50), "w%03d" % k] for k in range(200)],    # hundreds of files
     "DDEEP": [["n%d" % d for d in range(40)] + ["leaf.bin"], ["n%d" % d for d in range(20)] + ["mid.bin"], ["top.bin"]],
     "DM": [["m%02d" % k] if k % 3 else ["g%d" % (k // 3), "m%02d" % k] for k in range(14)],   # many files
@@ -123,7 +126,7 @@ def gen_trees(tier, rng, plens, quick_n, thorough_n, need_nonempty=True):
                       (8 * M, (12 * M,)), (8 * M, (4 * M, 3)), (16 * M, (20 * M,))):   # sizes on MiB-sized read boundaries inside a piece
         out.append(({1: "S1", 2: "D2", 3: "D3"}[len(szs)], szs, Pbig))
     n = thorough_n if tier == "thorough" else quick_n
-    shapes = ["D3", "D4", "D2n", "D2", "DN", "DNf", "DC", "DU", "D5", "DNFC", "DS", "DL", "DM", "DX", "DSYM", "DEXT", "DPAD"]
+    shapes = ["D3", "D4", "D2n", "D2", "DN", "DNf", "DC", "DU", "D5", "DNFC", "DS", "DL", "DM", "DX", "DSYM", "DEXT", "DPAD", "DKEY"]
     for _ in range(n):
         P = rng.choice(plens)
         A = alphabet(P)
@@ -515,6 +518,9 @@ class C08(CreateProp):
             o2 = dict(infoopts, httpseeds=["http://h.example/"], announce=["http://other/"])
             members.append(dict(base, opts=o2, outer="seeds", outname="other-name.torrent"))
             members.append(dict(base, outname="zzz.torrent", spelling="rel"))
+            if sh != "S1":          # the output path lies inside the content directory
+                members.append(dict(base, out_inside=True))
+                members.append(dict(base, out_inside=True, spelling="rel", progress=1))
             out.extend(members)
         # payloads of a few MB (the progress bars then count in MiB): progress / quiet / verbose must not matter
         for v in (1, 2, 3):
@@ -528,7 +534,7 @@ class C08(CreateProp):
 
     def nontrivial(self, case):
         var = tuple(sorted((k, str(v)) for k, v in case.items()
-                           if k in ("spelling", "cwd_mode", "copy", "enum_perm", "clock", "progress", "outer", "outname", "pre")))
+                           if k in ("spelling", "cwd_mode", "copy", "enum_perm", "clock", "progress", "outer", "outname", "pre", "out_inside")))
         if not var or var == (("outer", "plain"),):
             return None
         return (case["group"], var)
